@@ -117,7 +117,7 @@ CHECKS["C21"] = {
 
 CHECKS["C06"] = {
     "technique": "exhaustive reference-arithmetic testing: nest shapes x lengths x limits, marker counts vs products",
-    "text": "All nests of depth <= 3 over seven repeating/wrapping constructs x lengths {0,1,2,3,5} x five limits around the product (180k renders in the thorough tier; quick takes a 1/12 slice of depth 3) and random depth 3-4 nests with lengths 0-12: each level emits its own marker, so the number of executions of every block is observed directly; a nest whose prefix product exceeds the limit must raise LoopIterationLimitError and a nest within the limit must complete with exactly the expected counts.",
+    "text": "All nests of depth <= 3 over seven repeating/wrapping constructs x lengths {0,1,2,3,5} x five limits around the product (180k renders in the thorough tier; quick takes a 1/12 slice of depth 3) random depth 3-4 nests with lengths 0-12, enumerated sequences (every construct in front of every nest of two, at top level and inside a for or a render), loops over strings with and without string_sequences, and random forests (sibling nests, list/range/dict/string collections, offset/limit arguments): each node emits its own marker, so the number of executions of every block is observed directly; a nest whose prefix product exceeds the limit must raise LoopIterationLimitError and a nest within the limit must complete with exactly the expected counts.",
     "design_ref": "DESIGN.md §4 C06",
     "note": "Depth 4 is sampled, not enumerated. Plain include/render/macro levels count as length 1 and must carry the enclosing product.",
 }
